@@ -19,6 +19,8 @@ BASE_FLAGS = ["-std=c++11", "-O1", "-g0", "-fopenmp", "-ffp-contract=off",
 SAN = {
     "asan": ["-fsanitize=address,undefined", "-fno-sanitize-recover=all", "-fno-omit-frame-pointer", "-g1"],
     "none": [],
+    # ThreadSanitizer (C12/C14): use with cxx="clang++-14", no_openmp=True (libgomp/libomp are not instrumented)
+    "tsan": ["-fsanitize=thread", "-fno-omit-frame-pointer", "-g1"],
 }
 
 _hdr_hash = None
@@ -66,9 +68,12 @@ class BuildError(Exception):
     pass
 
 
-def build(name, drivers, defines=(), san="asan", extra=(), link=(), cxx="g++", with_lib=True, opt=None):
-    """Compile the library sources of the working tree + driver(s) -> executable path."""
+def build(name, drivers, defines=(), san="asan", extra=(), link=(), cxx="g++", with_lib=True, opt=None, no_openmp=False):
+    """Compile the library sources of the working tree + driver(s) -> executable path.
+    no_openmp=True drops -fopenmp (the OpenMP pragmas of the library are then ignored; needed under TSan)."""
     flags = list(BASE_FLAGS) + SAN.get(san, []) + ["-D" + d for d in defines] + list(extra)
+    if no_openmp:
+        flags = [f for f in flags if f != "-fopenmp"]
     if opt:
         flags = [f for f in flags if f != "-O1"] + [opt]
     if isinstance(drivers, str):
